@@ -32,6 +32,7 @@ func init() {
 				c.ruleScalarMultLoops(cfg)
 				c.ruleVarTimeLoops(cfg)
 				c.ruleRadix16(cfg)
+				c.ruleNAF(cfg)
 			}
 		},
 	})
